@@ -688,6 +688,7 @@ func (fr *Frame) exec(ins ssa.Instruction) {
 	case *ssa.RunDefers:
 		fr.runDefers()
 	case *ssa.Return:
+		fr.returnAsserts(x)
 		var vs []Term
 		for _, r := range x.Results {
 			vs = append(vs, fr.val(r))
@@ -1488,4 +1489,41 @@ func blockReaches(from, to *ssa.BasicBlock) bool {
 		stack = append(stack, b.Succs...)
 	}
 	return false
+}
+
+// returnAsserts: `at return[k] assert e` — e must hold (with the locals visible there) at the
+// k-th return statement in source order.
+func (fr *Frame) returnAsserts(x *ssa.Return) {
+	if fr.top != nil || fr.fc == nil {
+		return
+	}
+	var has bool
+	for _, cs := range fr.fc.CallSpecs {
+		if cs.Kind == "retassert" {
+			has = true
+		}
+	}
+	if !has {
+		return
+	}
+	ord := 0
+	for _, b := range fr.fn.Blocks {
+		for _, ins := range b.Instrs {
+			if r, ok := ins.(*ssa.Return); ok && r != x && r.Pos() < x.Pos() {
+				ord++
+			}
+		}
+	}
+	for _, cs := range fr.fc.CallSpecs {
+		if cs.Kind != "retassert" || (cs.Ord >= 0 && cs.Ord != ord) {
+			continue
+		}
+		env := fr.curEnv()
+		t, err := env.evalBool(cs.E)
+		if err != nil {
+			panic(err)
+		}
+		fr.oblige("at.return", cs.Label, t, x.Pos(), "assertion at return: "+cs.Src)
+		fr.callOrd["fired:"+cs.Src] = 1
+	}
 }
